@@ -1178,6 +1178,329 @@ func c20FxHistories(c *Ctx, rng *RNG, rd *c20Reader) error {
 	return nil
 }
 
+// ---------------------------------------------------------------------------
+// concurrent sessions: several independent gadget sessions (own OT objects,
+// own pipes) active at the same time in one process — the call pattern of a
+// bmr.Player with >= 2 peers.  Oracle unchanged (per call: shares recombine).
+// These families are oracle-only: in the model a session is a pure function
+// of its own inputs, so there is nothing a concurrent case could add to the
+// correspondence.
+
+// c20SignalIO is an ot.IO that tells when its reader first waits for input
+// after arm().
+type c20SignalIO struct {
+	*ot.Pipe
+	mu      sync.Mutex
+	waiting chan struct{}
+}
+
+func (io *c20SignalIO) arm() chan struct{} {
+	io.mu.Lock()
+	defer io.mu.Unlock()
+	io.waiting = make(chan struct{})
+	return io.waiting
+}
+
+func (io *c20SignalIO) signal() {
+	io.mu.Lock()
+	if io.waiting != nil {
+		close(io.waiting)
+		io.waiting = nil
+	}
+	io.mu.Unlock()
+}
+
+func (io *c20SignalIO) ReceiveByte() (byte, error)   { io.signal(); return io.Pipe.ReceiveByte() }
+func (io *c20SignalIO) ReceiveUint32() (int, error)  { io.signal(); return io.Pipe.ReceiveUint32() }
+func (io *c20SignalIO) ReceiveData() ([]byte, error) { io.signal(); return io.Pipe.ReceiveData() }
+func (io *c20SignalIO) ReceiveLabel(val *ot.Label, data *ot.LabelData) error {
+	io.signal()
+	return io.Pipe.ReceiveLabel(val, data)
+}
+
+type c20ConcSession struct {
+	snd, rcv ot.OT
+	rio      *c20SignalIO
+}
+
+func c20NewConcSession(rng *RNG, impl c20OTImpl) (*c20ConcSession, error) {
+	fp, tp := ot.NewPipe()
+	s := &c20ConcSession{snd: impl.mk(rng.Fork()), rcv: impl.mk(rng.Fork()), rio: &c20SignalIO{Pipe: tp}}
+	errc := make(chan error, 1)
+	go func() { errc <- c20Protect(func() error { return s.rcv.InitReceiver(s.rio) }) }()
+	if err := c20Protect(func() error { return s.snd.InitSender(fp) }); err != nil {
+		return nil, err
+	}
+	select {
+	case err := <-errc:
+		if err != nil {
+			return nil, err
+		}
+	case <-time.After(60 * time.Second):
+		return nil, fmt.Errorf("InitReceiver timed out")
+	}
+	return s, nil
+}
+
+type c20ConcRes struct {
+	bit uint
+	lbl bmr.Label
+	err error
+}
+
+// c20ConcPair: receiver 1 (b1) and receiver 2 (b2) are both made to wait for
+// their senders before either sender speaks; then sender 1, then sender 2.
+func c20ConcPair(c *Ctx, over string, s1, s2 *c20ConcSession, fxk bool, a uint, sl bmr.Label, b1, b2 uint) error {
+	gadget := "Fx"
+	if fxk {
+		gadget = "Fxk"
+	}
+	recv := func(s *c20ConcSession, b uint, ch chan c20ConcRes) {
+		var r c20ConcRes
+		r.err = c20Protect(func() error {
+			var err error
+			if fxk {
+				r.lbl, err = bmr.FxkReceive(s.rcv, b)
+			} else {
+				r.bit, err = bmr.FxReceive(s.rcv, b)
+			}
+			return err
+		})
+		ch <- r
+	}
+	wait := func(w chan struct{}) {
+		select {
+		case <-w:
+		case <-time.After(2 * time.Second):
+		}
+	}
+	c1, c2 := make(chan c20ConcRes, 1), make(chan c20ConcRes, 1)
+	w1 := s1.rio.arm()
+	go recv(s1, b1, c1)
+	wait(w1)
+	w2 := s2.rio.arm()
+	go recv(s2, b2, c2)
+	wait(w2)
+	send := func(s *c20ConcSession) (uint, bmr.Label, error) {
+		var r uint
+		var rl bmr.Label
+		err := c20Protect(func() error {
+			var err error
+			if fxk {
+				rl, err = bmr.FxkSend(s.snd, sl)
+			} else {
+				r, err = bmr.FxSend(s.snd, a)
+			}
+			return err
+		})
+		return r, rl, err
+	}
+	get := func(ch chan c20ConcRes) c20ConcRes {
+		select {
+		case r := <-ch:
+			return r
+		case <-time.After(30 * time.Second):
+			return c20ConcRes{err: fmt.Errorf("receiver timed out")}
+		}
+	}
+	r1, rl1, e1 := send(s1)
+	x1 := get(c1)
+	r2, rl2, e2 := send(s2)
+	x2 := get(c2)
+	hist := []string{
+		fmt.Sprintf("session 1: %sReceive(b=%d) started, waits for its sender", gadget, b1),
+		fmt.Sprintf("session 2: %sReceive(b=%d) started, waits for its sender", gadget, b2),
+		fmt.Sprintf("session 1: %sSend(a=%d s=%x) -> r=%d/%x, receiver got xb=%d/%x", gadget, a, sl[:], r1, rl1[:], x1.bit, x1.lbl[:]),
+		fmt.Sprintf("session 2: %sSend(a=%d s=%x) -> r=%d/%x, receiver got xb=%d/%x", gadget, a, sl[:], r2, rl2[:], x2.bit, x2.lbl[:]),
+	}
+	rep := c20Replay{Seed: c.Seed, Part: "concurrent-" + gadget, A: a, Over: over, History: hist}
+	if e1 != nil || e2 != nil || x1.err != nil || x2.err != nil {
+		c.Fail(fmt.Sprintf("c20:%s:concurrent-sessions:over-%s:error", gadget, over), fmt.Sprintf("%v %v %v %v", e1, x1.err, e2, x2.err), rep)
+		return fmt.Errorf("concurrent %s over %s failed", gadget, over)
+	}
+	c.Hist(fmt.Sprintf("concurrent:%s:forced:over-%s", gadget, over))
+	check := func(sess int, b uint, r uint, rl bmr.Label, x c20ConcRes) {
+		c.Eval(fmt.Sprintf("conc:%s:%s:%d:%d:%d:%d:%x", gadget, over, a, b1, b2, sess, sl[:]), true)
+		ok := true
+		what := ""
+		if fxk {
+			for i := range rl {
+				want := byte(0)
+				if b == 1 {
+					want = sl[i]
+				}
+				if rl[i]^x.lbl[i] != want {
+					ok = false
+				}
+			}
+			what = fmt.Sprintf("session %d: r^xb = %x, s = %x, b = %d (other session's b = %d)", sess, c20XorBytes(rl[:], x.lbl[:]), sl[:], b, b1+b2-b)
+		} else {
+			ok = r^x.bit == a*b
+			what = fmt.Sprintf("session %d: r^xb = %d, a*b = %d (a=%d b=%d, other session's b = %d)", sess, r^x.bit, a*b, a, b, b1+b2-b)
+		}
+		if !ok {
+			rep.B = b
+			rep.Index = sess
+			c.Fail(fmt.Sprintf("c20:%s:concurrent-sessions:over-%s:shares-do-not-recombine", gadget, over), what, rep)
+		}
+	}
+	check(1, b1, r1, rl1, x1)
+	check(2, b2, r2, rl2, x2)
+	return nil
+}
+
+// c20ConcFree: n sessions, each a sender goroutine and a receiver goroutine
+// making `rounds` calls with independent random operands, all free-running.
+func c20ConcFree(c *Ctx, rng *RNG, impl c20OTImpl, fxk bool, n, rounds int) error {
+	gadget := "Fx"
+	if fxk {
+		gadget = "Fxk"
+	}
+	type sess struct {
+		s      *c20ConcSession
+		a, b   []uint
+		sl     []bmr.Label
+		r, xb  []uint
+		rl, xl []bmr.Label
+		sErr   error
+		rErr   error
+	}
+	ss := make([]*sess, n)
+	for i := range ss {
+		cs, err := c20NewConcSession(rng, impl)
+		if err != nil {
+			c.Fail(fmt.Sprintf("c20:%s:concurrent-sessions:over-%s:init", gadget, impl.name), err.Error(), c20Replay{Seed: c.Seed, Over: impl.name})
+			return nil
+		}
+		q := &sess{s: cs, a: make([]uint, rounds), b: make([]uint, rounds), sl: make([]bmr.Label, rounds),
+			r: make([]uint, rounds), xb: make([]uint, rounds), rl: make([]bmr.Label, rounds), xl: make([]bmr.Label, rounds)}
+		for k := 0; k < rounds; k++ {
+			q.a[k], q.b[k] = uint(rng.Intn(2)), uint(rng.Intn(2))
+			q.sl[k] = c20EdgeLabel(rng, 99)
+		}
+		ss[i] = q
+	}
+	var wg sync.WaitGroup
+	for _, q := range ss {
+		q := q
+		wg.Add(2)
+		go func() {
+			defer wg.Done()
+			q.sErr = c20Protect(func() error {
+				for k := 0; k < rounds; k++ {
+					var err error
+					if fxk {
+						q.rl[k], err = bmr.FxkSend(q.s.snd, q.sl[k])
+					} else {
+						q.r[k], err = bmr.FxSend(q.s.snd, q.a[k])
+					}
+					if err != nil {
+						return err
+					}
+				}
+				return nil
+			})
+		}()
+		go func() {
+			defer wg.Done()
+			q.rErr = c20Protect(func() error {
+				for k := 0; k < rounds; k++ {
+					var err error
+					if fxk {
+						q.xl[k], err = bmr.FxkReceive(q.s.rcv, q.b[k])
+					} else {
+						q.xb[k], err = bmr.FxReceive(q.s.rcv, q.b[k])
+					}
+					if err != nil {
+						return err
+					}
+				}
+				return nil
+			})
+		}()
+	}
+	done := make(chan struct{})
+	go func() { wg.Wait(); close(done) }()
+	select {
+	case <-done:
+	case <-time.After(120 * time.Second):
+		c.Fail(fmt.Sprintf("c20:%s:concurrent-sessions:over-%s:stalled", gadget, impl.name), "free-running sessions did not finish", c20Replay{Seed: c.Seed, Over: impl.name})
+		return fmt.Errorf("concurrent sessions stalled")
+	}
+	c.Hist(fmt.Sprintf("concurrent:%s:free:over-%s", gadget, impl.name))
+	for i, q := range ss {
+		if q.sErr != nil || q.rErr != nil {
+			c.Fail(fmt.Sprintf("c20:%s:concurrent-sessions:over-%s:error", gadget, impl.name), fmt.Sprintf("session %d: %v %v", i, q.sErr, q.rErr), c20Replay{Seed: c.Seed, Over: impl.name, Index: i})
+			continue
+		}
+		for k := 0; k < rounds; k++ {
+			c.Eval(fmt.Sprintf("concfree:%s:%s:%d:%d:%d:%d:%x", gadget, impl.name, i, k, q.a[k], q.b[k], q.sl[k][:]), true)
+			ok := true
+			var what string
+			if fxk {
+				for j := range q.rl[k] {
+					want := byte(0)
+					if q.b[k] == 1 {
+						want = q.sl[k][j]
+					}
+					if q.rl[k][j]^q.xl[k][j] != want {
+						ok = false
+					}
+				}
+				what = fmt.Sprintf("session %d of %d round %d: r^xb = %x, s = %x, b = %d", i, n, k, c20XorBytes(q.rl[k][:], q.xl[k][:]), q.sl[k][:], q.b[k])
+			} else {
+				ok = q.r[k]^q.xb[k] == q.a[k]*q.b[k]
+				what = fmt.Sprintf("session %d of %d round %d: a=%d b=%d r=%d xb=%d: r^xb != a*b", i, n, k, q.a[k], q.b[k], q.r[k], q.xb[k])
+			}
+			if !ok {
+				var hist []string
+				for j, o := range ss {
+					hist = append(hist, fmt.Sprintf("session %d round %d: a=%d b=%d s=%x", j, k, o.a[k], o.b[k], o.sl[k][:]))
+				}
+				c.Fail(fmt.Sprintf("c20:%s:concurrent-sessions:over-%s:shares-do-not-recombine", gadget, impl.name), what,
+					c20Replay{Seed: c.Seed, Part: "concurrent-free-" + gadget, A: q.a[k], B: q.b[k], Over: impl.name, Index: i, Call: k + 1, History: hist})
+			}
+		}
+	}
+	return nil
+}
+
+func c20RunConcurrent(c *Ctx) error {
+	rng := c.rng.Fork()
+	for _, impl := range c20OTImpls() {
+		// (a) two receivers forced to wait together
+		s1, err := c20NewConcSession(rng, impl)
+		var s2 *c20ConcSession
+		if err == nil {
+			s2, err = c20NewConcSession(rng, impl)
+		}
+		if err != nil {
+			c.Fail(fmt.Sprintf("c20:Fx:concurrent-sessions:over-%s:init", impl.name), err.Error(), c20Replay{Seed: c.Seed, Over: impl.name})
+			continue
+		}
+		for rep := 0; rep < c.N(2, 10); rep++ {
+			for a := uint(0); a < 2; a++ {
+				for _, bb := range [][2]uint{{0, 1}, {1, 0}, {0, 0}, {1, 1}} {
+					if err := c20ConcPair(c, impl.name, s1, s2, false, a, bmr.Label{}, bb[0], bb[1]); err != nil {
+						return err
+					}
+					if err := c20ConcPair(c, impl.name, s1, s2, true, 0, c20EdgeLabel(rng, 99), bb[0], bb[1]); err != nil {
+						return err
+					}
+				}
+			}
+		}
+		// (b) free-running sessions
+		if err := c20ConcFree(c, rng, impl, false, 4, c.N(50, 300)); err != nil {
+			return err
+		}
+		if err := c20ConcFree(c, rng, impl, true, 4, c.N(50, 300)); err != nil {
+			return err
+		}
+	}
+	return nil
+}
+
 func c20RunFx(c *Ctx) error {
 	rng := c.rng.Fork()
 	rd := &c20Reader{fall: rng.Fork()}
@@ -1362,6 +1685,35 @@ func runC20(c *Ctx) error {
 		flush("sweep:last")
 		c.Note("modulus sweep: %d moduli", len(sweep))
 	}
+	// (f) concurrent vole sessions: four Sender/Receiver pairs run their Mul
+	// calls at the same time; every session is checked (and is a
+	// correspondence case) as in the sequential groups
+	{
+		type job struct {
+			r   *RNG
+			ops []*c20Op
+			s   *c20Session
+		}
+		pm := []*big.Int{mods[0].p, big.NewInt(65537), new(big.Int).Sub(c20Pow2(64), big.NewInt(59)), mods[4].p}
+		jobs := make([]*job, 4)
+		for i := range jobs {
+			r := c.rng.Fork()
+			jobs[i] = &job{r: r, ops: c20MkOps(r, pm[i], []int{1, 2, 17, 64, 3}, "sweep")}
+		}
+		var wg sync.WaitGroup
+		for _, j := range jobs {
+			j := j
+			wg.Add(1)
+			go func() {
+				defer wg.Done()
+				j.s = c20RunSession(j.r, j.ops, 0, sessTimeout)
+			}()
+		}
+		wg.Wait()
+		for i, j := range jobs {
+			c20Finish(c, j.s, true, true, fmt.Sprintf("concurrent-vole:%d", i))
+		}
+	}
 	// (d) probes outside the domain of the property (correspondence only):
 	// negative y, y >= 2^256, p = 0, negative p, p > 2^256 with a large share
 	{
@@ -1412,5 +1764,17 @@ func runC20(c *Ctx) error {
 		return err
 	}
 	c.Note("fx part: %.1fs", time.Since(t1).Seconds())
+	t2 := time.Now()
+	{
+		// bmr.NewLabel reads crypto/rand.Reader from several goroutines here
+		old := crand.Reader
+		crand.Reader = &c20Reader{fall: c.rng.Fork()}
+		err := c20RunConcurrent(c)
+		crand.Reader = old
+		if err != nil {
+			return err
+		}
+	}
+	c.Note("concurrent gadget sessions: %.1fs", time.Since(t2).Seconds())
 	return nil
 }
